@@ -210,6 +210,11 @@ def suite_kill(binf, tier, rng, which):
                 ip.op(op)
             ip.close()
             after_ref = lookups(binf, c0, e0, keys)
+            final_bad = content_oracle(c0)          # the state after the whole operation is an instant too
+            out["runs"] += 1
+            if final_bad:
+                out["failures"].append({"concrete": True, "text": f"{name} / after the complete operation: {final_bad[0]}",
+                                        "replay": {"scenario": name, "flavour": binf, "setup": setup, "ops": ops}})
         finally:
             shutil.rmtree(base, ignore_errors=True)
         for t in targets:
@@ -516,4 +521,170 @@ def suite_confine(binf, tier, rng):
             T.cleanup(tr)
         finally:
             shutil.rmtree(base, ignore_errors=True)
+    return out
+
+# ------------------------------------------------------------------------------------------------ C07
+def conc_ops(fl):
+    """the operations of C07's quantifier, as (name, op, mutates) over keys k / k2 and contents A / B"""
+    K, K2 = kx("k"), kx("k2")
+    A, B = b"content A", b"content B!"
+    sA = hashes.sri("sha256", A)
+    return {
+        "write k A": {"op": "write", "fl": fl, "key": K, "data": A.hex(), "algo": "sha256"},
+        "write k B": {"op": "write", "fl": fl, "key": K, "data": B.hex(), "algo": "sha256"},
+        "write k2 A": {"op": "write", "fl": fl, "key": K2, "data": A.hex(), "algo": "sha256"},
+        "write_hash A": {"op": "write_hash", "fl": fl, "data": A.hex(), "algo": "sha256"},
+        "read k": {"op": "read", "fl": fl, "key": K},
+        "read_hash A": {"op": "read_hash", "fl": fl, "sri": sA},
+        "metadata k": {"op": "metadata", "fl": fl, "key": K},
+        "remove k": {"op": "remove", "fl": fl, "key": K},
+        "remove_hash A": {"op": "remove_hash", "fl": fl, "sri": sA},
+        "exists A": {"op": "exists", "fl": fl, "sri": sA},
+        "list": {"op": "list"},
+    }
+
+def _canon_obs(op, r):
+    c = O.canon_impl(op, r) if r is not None else ("dead",)
+    if c[:2] == ("ok", "meta"):
+        return strip_time(c)
+    if c[:2] == ("ok", "list"):
+        return ("ok", "list", tuple(sorted((i[0], json.dumps(dict(i[1], time=0), sort_keys=True) if i[0] == "meta" else str(i[1])) for i in c[2])))
+    if c[0] == "err":
+        return c[:2]
+    return c
+
+def _canon_tree(cache, ext):
+    """final cache state modulo timestamps: content files, and per bucket the decoded records with the time masked"""
+    out = []
+    for e in O.dump_real(cache, ext):
+        if e[0].startswith("c:tmp/"):
+            out.append(("c:tmp/*",) + tuple(e[1:])); continue
+        if e[0].startswith("c:index-v5/") and e[1] == "file":
+            recs = []
+            for line in bytes.fromhex(e[2]).split(b"\n"):
+                parts = line.split(b"\t")
+                if len(parts) == 2:
+                    try:
+                        j = json.loads(parts[1]); j["time"] = 0
+                        recs.append(json.dumps(j, sort_keys=True))
+                    except Exception:
+                        recs.append(line.hex())
+                elif line:
+                    recs.append(line.hex())
+            out.append((e[0], "bucket", tuple(recs)))
+        else:
+            out.append(tuple(e))
+    return sorted(out, key=str)
+
+def _bucket_multiset(tree):
+    """the same with the order of records inside a bucket forgotten (used only to explain a difference)"""
+    return [(e[0], e[1], tuple(sorted(e[2]))) if e[1] == "bucket" else e for e in tree]
+
+def suite_conc(binf, tier, rng):
+    """forced schedules on the real binaries: operation A is parked (strace delay) on entry to its i-th system call that
+    names a cache path while operation B — a second process on the same directory — runs to completion; then A resumes.
+    Results of both and the final tree must be those of A;B or of B;A run serially (direct oracle on the implementation)."""
+    import tempfile, shutil, threading
+    from concurrent.futures import ThreadPoolExecutor
+    out = {"runs": 0, "skipped": 0, "failures": [], "dist": {}, "serial_AB": 0, "serial_BA": 0}
+    fl = "sync" if binf == "sync" else "async"
+    ops = conc_ops(fl)
+    K, K2 = kx("k"), kx("k2")
+    A = b"content A"
+    warm = [{"op": "write", "fl": "sync", "key": K, "data": A.hex(), "algo": "sha256"}]
+    pairs = [("write k A", "write k B"), ("write k B", "write k2 A"), ("write k A", "write k2 A"), ("write k B", "remove k"),
+             ("write k A", "remove_hash A"), ("write k2 A", "remove_hash A"), ("write k B", "read k"), ("write k B", "metadata k"),
+             ("write k B", "list"), ("list", "write k B"), ("remove k", "write k B"), ("remove_hash A", "write k2 A"),
+             ("write_hash A", "remove_hash A"), ("remove k", "metadata k"), ("write k A", "read_hash A"), ("write_hash A", "exists A")]
+    if tier != "quick":
+        names = list(ops)
+        pairs += [(a, b) for a in names for b in names if (a, b) not in pairs and (ops[a]["op"] in ("write", "write_hash", "remove", "remove_hash") or ops[b]["op"] in ("write", "write_hash", "remove", "remove_hash"))]
+    states = [("cold", [])] if tier == "quick" else [("cold", []), ("warm", warm)]
+    if tier == "quick":
+        states.append(("warm", warm)); pairs_for = {"cold": pairs[:6], "warm": pairs}
+    else:
+        pairs_for = {"cold": pairs, "warm": pairs}
+    def serial(setup, first, second):
+        base = tempfile.mkdtemp(prefix="ser", dir=T.SCRATCH)
+        try:
+            c, e = os.path.join(base, "c"), os.path.join(base, "e")
+            os.makedirs(c); os.makedirs(e)
+            make_state_fn(binf, setup)(c, e)
+            ip = ImplProc(binf, c, e); r1 = ip.op(first); ip.close()
+            ip = ImplProc(binf, c, e); r2 = ip.op(second); ip.close()
+            return _canon_obs(first, r1), _canon_obs(second, r2), _canon_tree(c, e)
+        finally:
+            shutil.rmtree(base, ignore_errors=True)
+    jobs = []
+    for sname, setup in states:
+        for an, bn in pairs_for[sname]:
+            a, b = ops[an], ops[bn]
+            rAB = serial(setup, a, b)                       # (obs a, obs b, tree)
+            rBA = serial(setup, b, a)
+            okset = [(rAB[0], rAB[1], rAB[2]), (rBA[1], rBA[0], rBA[2])]
+            # the schedule points of A: its system calls that name a cache path, by (name, per-thread ordinal)
+            base = tempfile.mkdtemp(prefix="cb", dir=T.SCRATCH)
+            try:
+                c, e = os.path.join(base, "c"), os.path.join(base, "e")
+                os.makedirs(c); os.makedirs(e)
+                make_state_fn(binf, setup)(c, e)
+                tr = T.trace_ops(binf, c, e, [a], want_reads=True, warmup=T.default_warmup(binf))
+                lo, hi = tr["spans"][0]
+                pts = [(x["name"], x["thread_ord"], x.get("role"), T.brief(x)[:70]) for x in tr["calls"][lo:hi]
+                       if any(r == "c" for r, _ in (x.get("paths") or [])) or (x.get("fdpath") or ("",))[0] == "c"]
+                roles = tr["info"]["roles"]; attached = tr["info"]["attached"]
+                T.cleanup(tr)
+            finally:
+                shutil.rmtree(base, ignore_errors=True)
+            if tier == "quick" and len(pts) > 14:
+                pts = pts[:4] + rng.sample(pts[4:-4], 6) + pts[-4:]
+            for pt in pts:
+                jobs.append((sname, setup, an, bn, a, b, pt, okset))
+    def one(job):
+        sname, setup, an, bn, a, b, (name, ordn, role, desc), okset = job
+        base = tempfile.mkdtemp(prefix="cs", dir=T.SCRATCH)
+        try:
+            c, e = os.path.join(base, "c"), os.path.join(base, "e")
+            os.makedirs(c); os.makedirs(e)
+            make_state_fn(binf, setup)(c, e)
+            resA = {}
+            def runA():
+                try:
+                    tr = T.trace_ops(binf, c, e, [a], inject=f"{name}:delay_enter=900000:when={ordn}", warmup=T.default_warmup(binf),
+                                     only=role if role in ("cch-worker", "blocking-1", "tokio-rt-worker") else None, timeout=60)
+                    resA["r"] = tr["results"][0]; resA["inj"] = len(tr["info"].get("injected_lines") or [])
+                    T.cleanup(tr)
+                except Exception as ex:
+                    resA["err"] = repr(ex)[:200]
+            th = threading.Thread(target=runA); th.start()
+            time.sleep(0.45)                                 # A is attached, started and parked at its delay point
+            ip = ImplProc(binf, c, e); rb = ip.op(b); ip.close()
+            th.join()
+            if "err" in resA:
+                return ("skip", job, resA["err"])
+            got = (_canon_obs(a, resA["r"]), _canon_obs(b, rb), _canon_tree(c, e))
+            return ("done", job, got)
+        finally:
+            shutil.rmtree(base, ignore_errors=True)
+    with ThreadPoolExecutor(max_workers=8) as ex:
+        for status, job, got in ex.map(one, jobs):
+            sname, setup, an, bn, a, b, pt, okset = job
+            out["runs"] += 1
+            if status == "skip":
+                out["skipped"] += 1; continue
+            key = f"{an} || {bn}"
+            out["dist"][key] = out["dist"].get(key, 0) + 1
+            if got == okset[0]:
+                out["serial_AB"] += 1
+            elif got == okset[1]:
+                out["serial_BA"] += 1
+            else:
+                # results and content must match a serial order; inside one bucket the two records may be in either order
+                # only if that order is itself the order of one serial run (already covered above): report
+                why = "results" if (got[0], got[1]) not in [(o[0], o[1]) for o in okset] else "final state"
+                out["failures"].append({"concrete": True,
+                    "text": f"{sname} cache, A = {an} parked before {pt[3]} while B = {bn} ran: the {why} match no serial order "
+                            f"(A: {str(got[0])[:100]}, B: {str(got[1])[:100]})",
+                    "replay": {"flavour": binf, "setup": setup, "A": a, "B": b, "A_parked_before": pt[:2] + (pt[3],), "observed": [str(got[0])[:300], str(got[1])[:300], got[2]],
+                               "serial_AB": [str(okset[0][0])[:300], str(okset[0][1])[:300], okset[0][2]], "serial_BA": [str(okset[1][0])[:300], str(okset[1][1])[:300], okset[1][2]]}})
     return out
